@@ -35,7 +35,7 @@ open Util FrameRead RespSpec
         cells, the final error with its fields, the trace ids the Tracer got. Model: Model/RowsPaged.lean;
         specification: Driver.C04.pagesSpec from the logical responses alone (C04_pages_scan / C04_pages_scanner,
         C04_query_view) — must agree
-  qone <api> <fv> <ndests> <logical response> WIRE <wire>   Query.Scan / ScanCAS / MapScanCAS on ONE response (model only)
+  qone <api> <fv> <ndests> (<logical response> WIRE <wire>)+   Query.Scan / ScanCAS / MapScanCAS; empty first pages that announce more are skipped (model only)
   pagesx ...   the same, model only (answers that are no result / error, UNPREPARED, void in the middle, pages of
         different shapes, tuple<> columns, a last page that announces more) -/
 
@@ -825,8 +825,8 @@ def dQErr : QErr → String
 
 open Rows Paged in
 /-- `qone <api> <fv> <ndests> <logical response> WIRE <wire>` -/
-def qoneModel (api : String) (fv nd : Nat) (wire : FrameRead.Bytes) : String :=
-  match execute fv true [wire] with
+def qoneModel (api : String) (fv nd : Nat) (wires : List FrameRead.Bytes) : String :=
+  match (execute fv true wires).bind (fun x => skipEmpty fv true x.2 x.1) with
   | none => "crash:go"
   | some (q, _) =>
     match api with
@@ -834,6 +834,10 @@ def qoneModel (api : String) (fv nd : Nat) (wire : FrameRead.Bytes) : String :=
       (match queryScan q (List.replicate nd true) with
        | none => "crash:go"
        | some (calls, e) => "ok rows:[" ++ dCalls calls ++ "] end:" ++ dQErr e)
+    | "mapscan" =>
+      (match queryMapScan q with
+       | none => "crash:go"
+       | some (m, e) => "ok map:" ++ dMap (m.map (fun kv => (kv.1, toHex kv.2))) ++ " end:" ++ dQErr e)
     | "scancas" =>
       (match scanCAS q nd with
        | none => "crash:go"
@@ -843,6 +847,14 @@ def qoneModel (api : String) (fv nd : Nat) (wire : FrameRead.Bytes) : String :=
        | none => "crash:go"
        | some (a, m, e) => s!"ok applied:{a} map:" ++ dMap (m.map (fun kv => (kv.1, toHex kv.2))) ++ " end:" ++ dQErr e)
     | _ => "bad-op"
+
+/-- the wire frames of an op line: every token that follows a `WIRE` token -/
+def wiresAfter : List String → Option (List FrameRead.Bytes)
+  | [] => some []
+  | "WIRE" :: w :: rest => (match parseHex w, wiresAfter rest with
+    | some b, some l => some (b :: l)
+    | _, _ => none)
+  | _ :: rest => wiresAfter rest
 
 def tPages : TP (List (Nat × LResp × FrameRead.Bytes)) := do
   let k ← tNat
@@ -969,8 +981,8 @@ def step (_ : Unit) (ws : List String) : Unit × String :=
          | some s => if s == m then m else "MODEL-SPEC-MISMATCH model=" ++ m ++ " spec=" ++ s
      | _, _ => "bad-op")
   | "qone" :: api :: fv :: nd :: rest =>
-    (match fv.toNat?, nd.toNat?, rest.getLast?.bind parseHex with
-     | some fv, some nd, some wire => qoneModel api fv nd wire
+    (match fv.toNat?, nd.toNat?, wiresAfter rest with
+     | some fv, some nd, some wires => qoneModel api fv nd wires
      | _, _, _ => "bad-op")
   | _ => "bad-op")
 
